@@ -40,3 +40,7 @@ Definition server_chain_of (s : server_id) : list cert :=
 (** every server trusts CA 1 for clients; every client trusts CA 1 for servers *)
 Definition matrix (s : server_id) (c : client_id) : bool :=
   handshake_ok (gen_ca 1) (gen_ca 1) (server_chain_of s) (client_chain_of c).
+
+(** the same, for a client configured with the other CA (every server still trusts CA 1 for clients) *)
+Definition matrix_trust (s : server_id) (c : client_id) (client_trusts_other : bool) : bool :=
+  handshake_ok (gen_ca 1) (if client_trusts_other then gen_ca 11 else gen_ca 1) (server_chain_of s) (client_chain_of c).
